@@ -43,6 +43,40 @@ Proof.
     apply andb_true_iff; split; [apply andb_true_iff; split; [apply andb_true_iff; split|]|]; apply Z.leb_le; lia.
 Qed.
 
+(* the guarded function: every accepted parameter triple keeps all reads in bounds -- no side condition *)
+Theorem aniso_accept_in_bounds nr_exp a p x : aniso_accept nr_exp a p = Some x -> aniso_in_bounds x = true.
+Proof.
+  unfold aniso_accept. destruct (aniso_indices nr_exp a p) as [y|] eqn:E; [|discriminate].
+  destruct ((an_se y <? 0) || (an_nr y <? an_ee y))%bool eqn:G; [discriminate|]. intros H. injection H as <-.
+  apply orb_false_iff in G. destruct G as [G1 G2]. apply Z.ltb_ge in G1. apply Z.ltb_ge in G2.
+  unfold aniso_indices in E.
+  destruct ((a <? 0) || (2 ^ nr_exp - 2 ^ a <=? 0))%bool eqn:E0; [discriminate|].
+  apply orb_false_iff in E0. destruct E0 as [Ea _]. apply Z.ltb_ge in Ea.
+  set (nequi := if Z.odd a then 2 ^ nr_exp - 2 ^ a + 1 else 2 ^ nr_exp - 2 ^ a) in *.
+  assert (Hp : 0 < 2 ^ a) by (apply Z.pow_pos_nonneg; lia).
+  assert (Hq : 0 < 2 ^ (Z.log2 (nequi + 1 - p) + 1)) by (apply Z.pow_pos_nonneg; [lia|pose proof (Z.log2_nonneg (nequi + 1 - p)); lia]).
+  destruct (nequi + 1 - Z.quot (2 ^ a) 2 <? p); injection E as <-; cbn [an_nref an_nr an_se an_ee an_nequi] in *;
+    unfold aniso_in_bounds; cbn [an_nref an_nr an_se an_ee an_nequi];
+    (apply andb_true_iff; split; [apply andb_true_iff; split; [apply andb_true_iff; split|]|]; apply Z.leb_le; lia).
+Qed.
+
+(* the three output segments tile r_temp exactly: every entry is written once, none outside *)
+Theorem aniso_output_partition nr_exp a p x s : aniso_accept nr_exp a p = Some x -> 0 <= s ->
+  0 <= an_se x /\ 0 <= an_nequi x - an_ee x + 1 /\
+  an_se x + s + (an_nequi x - an_ee x + 1) = aniso_out_size x s.
+Proof.
+  intros H Hs. pose proof (aniso_accept_in_bounds _ _ _ _ H) as B. unfold aniso_in_bounds in B.
+  apply andb_true_iff in B. destruct B as [B B4]. apply andb_true_iff in B. destruct B as [B B3].
+  apply andb_true_iff in B. destruct B as [B1 B2].
+  apply Z.leb_le in B1, B2, B3, B4.
+  unfold aniso_accept in H. destruct (aniso_indices nr_exp a p) as [y|] eqn:E; [|discriminate].
+  destruct ((an_se y <? 0) || (an_nr y <? an_ee y))%bool; [discriminate|]. injection H as <-.
+  assert (Hee : an_ee y = an_se y + an_nref y).
+  { unfold aniso_indices in E. destruct ((a <? 0) || (2 ^ nr_exp - 2 ^ a <=? 0))%bool; [discriminate|].
+    injection E as <-. reflexivity. }
+  unfold aniso_out_size. lia.
+Qed.
+
 (* F5: without the precondition the window starts at a negative index.  (a) the command-line default
    refinement radius 0 < R0 gives p = -1; (b) a refinement radius INSIDE the domain but close to R0. *)
 Theorem aniso_oob_refuted :
@@ -166,6 +200,83 @@ Section Divisions.
       replace (S (S (2 * i')) + 1)%nat with (S (S (2 * i' + 1))) by lia. cbn [nth].
       replace (S i' + 1)%nat with (S (i' + 1)) by lia. cbn [nth].
       apply (IH i'). cbn [length]. lia.
+  Qed.
+
+  Lemma refine_mid_cons2 (a b : R) rest :
+    @refine_mid Rsc (a :: b :: rest) = a :: @smul Rsc (@shalf Rsc) (@sadd Rsc a b) :: @refine_mid Rsc (b :: rest).
+  Proof. reflexivity. Qed.
+
+  Lemma refine_mid_length (r : list R) : (1 <= length r)%nat -> length (@refine_mid Rsc r) = (2 * length r - 1)%nat.
+  Proof.
+    induction r as [|a [|b rest] IH]; intros H; [cbn [length] in H; lia|reflexivity|].
+    rewrite refine_mid_cons2. change (length (a :: b :: rest)) with (S (length (b :: rest))).
+    cbn [length] in IH |- *. rewrite IH by lia. lia.
+  Qed.
+
+  Definition increasing (l : list R) : Prop := forall i, (i + 1 < length l)%nat -> nth i l 0 < nth (i + 1) l 0.
+
+  (* strict monotonicity and both end points survive the refinement *)
+  Theorem refine_mid_increasing (r : list R) : (1 <= length r)%nat -> increasing r ->
+    increasing (@refine_mid Rsc r) /\ nth 0 (@refine_mid Rsc r) 0 = nth 0 r 0 /\
+    last (@refine_mid Rsc r) 0 = last r 0.
+  Proof.
+    intros Hl Hinc. split; [|split].
+    - intros k Hk. rewrite refine_mid_length in Hk by exact Hl.
+      destruct (Nat.even k) eqn:Ev.
+      + apply Nat.even_spec in Ev. destruct Ev as [i ->].
+        destruct (refine_mid_nth r i ltac:(lia)) as [E1 E2]. change (T Rsc) with R in *. rewrite E1, E2.
+        pose proof (Hinc i ltac:(lia)). lra.
+      + assert (Ho : Nat.odd k = true) by (rewrite <- Nat.negb_even, Ev; reflexivity).
+        apply Nat.odd_spec in Ho. destruct Ho as [i ->].
+        destruct (refine_mid_nth r i ltac:(lia)) as [_ E2]. change (T Rsc) with R in *. rewrite E2.
+        replace (2 * i + 1 + 1)%nat with (2 * (i + 1))%nat by lia.
+        destruct (Nat.eq_dec (i + 2) (length r)) as [Elast|Ne].
+        * (* the last old node: position 2 (i+1) = length - 1 of the refined list *)
+          assert (Hn : nth (2 * (i + 1)) (@refine_mid Rsc r) 0 = nth (i + 1) r 0).
+          { clear -Elast. revert i Elast. induction r as [|a [|b rest] IH]; intros i E; cbn [length] in E; try lia.
+            destruct i as [|i'].
+            - destruct rest; [reflexivity|cbn [length] in E; lia].
+            - cbn [refine_mid]. replace (2 * (S i' + 1))%nat with (S (S (2 * (i' + 1)))) by lia.
+              replace (S i' + 1)%nat with (S (i' + 1)) by lia. cbn [nth]. apply IH. cbn [length]. lia. }
+          change (T Rsc) with R in *. rewrite Hn. pose proof (Hinc i ltac:(lia)). lra.
+        * destruct (refine_mid_nth r (i + 1) ltac:(lia)) as [E1 _]. change (T Rsc) with R in *. rewrite E1.
+          pose proof (Hinc i ltac:(lia)). lra.
+    - destruct r as [|a [|b rest]]; reflexivity.
+    - clear Hinc. induction r as [|a [|b rest] IH]; cbn [length] in Hl; try lia; [reflexivity|].
+      rewrite refine_mid_cons2. change (last (a :: b :: rest) 0) with (last (b :: rest) 0). rewrite <- IH by (cbn [length]; lia).
+      pose proof (refine_mid_length (b :: rest) ltac:(cbn [length]; lia)) as L.
+      destruct (@refine_mid Rsc (b :: rest)) eqn:E.
+      + cbn [length] in L. lia.
+      + reflexivity.
+  Qed.
+
+  (* the executable order check used on the implementation's output means what it should *)
+  Lemma increasing_b_sound (l : list R) : @increasing_b Rsc l = true -> increasing l.
+  Proof.
+    induction l as [|a [|b rest] IH]; intros H i Hi; cbn [length] in Hi; try lia.
+    cbn [increasing_b] in H. apply andb_prop in H. destruct H as [H1 H2].
+    destruct i as [|i'].
+    - cbn [nth Nat.add]. cbn [sltb Rsc] in H1. destruct (Rlt_dec a b) as [Hlt|]; [exact Hlt|discriminate].
+    - replace (S i' + 1)%nat with (S (i' + 1)) by lia. cbn [nth]. apply (IH H2 i'). cbn [length]. lia.
+  Qed.
+
+  (* the angular division: uniform, ending exactly at the full turn, and every angle has its antipodal
+     partner half the (even) number of divisions further on *)
+  Theorem uniform_angles_antipodal (tau : R) n i : (0 < n)%nat -> Nat.even n = true -> (i < n / 2)%nat ->
+    nth (i + n / 2) (@uniform_angles Rsc tau n) 0 = nth i (@uniform_angles Rsc tau n) 0 + tau / 2 /\
+    nth n (@uniform_angles Rsc tau n) 0 = tau /\
+    (forall j, (j < n)%nat -> nth j (@uniform_angles Rsc tau n) 0 = INR j * (tau / INR n)).
+  Proof.
+    intros Hn Hev Hi. apply Nat.even_spec in Hev. destruct Hev as [m Em].
+    assert (Hm : (n / 2 = m)%nat) by (rewrite Em, Nat.mul_comm, Nat.div_mul; lia). rewrite Hm in *.
+    assert (Hj : forall j, (j < n)%nat -> nth j (@uniform_angles Rsc tau n) 0 = INR j * (tau / INR n)).
+    { intros j Hjn. unfold uniform_angles. rewrite app_nth1 by (rewrite map_length, seq_length; exact Hjn).
+      rewrite nth_map_seq by exact Hjn. rewrite !of_nat_INR. reflexivity. }
+    split; [|split; [|exact Hj]].
+    - rewrite !Hj by lia. rewrite plus_INR. assert (En : INR n = 2 * INR m) by (rewrite Em, mult_INR; cbn [INR]; ring).
+      rewrite En. assert (0 < INR m) by (apply lt_0_INR; lia). rsc. field. lra.
+    - unfold uniform_angles. rewrite app_nth2 by (rewrite map_length, seq_length; lia).
+      rewrite map_length, seq_length, Nat.sub_diag. reflexivity.
   Qed.
 
   (* divideVector: the points of one more bisection contain the previous ones at every second
